@@ -139,16 +139,29 @@ def classification_sites(F, body):
     return out
 
 
-def _single_region(body, is_single_param=2):
-    """(entry block of the single-message region, entry of the batch region): the first switch on the is_single flag"""
+def _single_region(body, F=None, is_single_param=2):
+    """(entry block of the single-message region, entry of the batch region): the first switch on handle_rpc_call's
+    second parameter (the single/batch flag), identified by position and type, not by name"""
+    # in the coroutine the flag is an upvar: a bool local defined by a move out of the coroutine environment `_1.<k>` where
+    # upvar k is the k-th parameter of the enclosing fn
+    flag_locals = set()
+    for l, defs in body.defs.items():
+        if body.locals[l]["ty"] != "bool":
+            continue
+        for bi, si, dpl, src in defs:
+            if src[0] == "rv" and src[1]["k"] == "use":
+                q = op_place(src[1]["op"])
+                if q is not None and q["l"] == 1:
+                    fs = [e for e in q.get("p", []) if isinstance(e, dict) and "f" in e]
+                    if fs and fs[0]["f"] == is_single_param - 1:
+                        flag_locals.add(l)
     for bi, blk in enumerate(body.blocks):
         t = blk["term"]
         if t and t["t"] == "switch" and bi in body.reachable:
             p = op_place(t["discr"])
             if p is None:
                 continue
-            names = {body.local_name(l) for l in flow._local_copies_back(body, p["l"], 6)}
-            if "is_single" in names:
+            if flow._local_copies_back(body, p["l"], 6) & flag_locals:
                 arms = {v: tb for v, tb in t["arms"]}
                 return (t["otherwise"], arms.get("0")) if "0" in arms else (arms.get("1"), t["otherwise"])
     return None, None
